@@ -414,7 +414,7 @@ theorem passed_sound {p : Tally} (h : Premise p) {blk : Block} (hne : p.expires.
 
 /-- … the same on the decision function: the completed proposal, evaluated at any block at which it
 has expired, is passed. -/
-theorem passed_sound' {p : Tally} (h : Premise p) {blk : Block} (hne : p.expires.isExpired blk = false)
+theorem passed_sound_at {p : Tally} (h : Premise p) {blk : Block} (hne : p.expires.isExpired blk = false)
     (hp : isPassed p blk = .ok true) (c : Votes) (hc : cast (plus p.votes c) ≤ p.totalWeight)
     {blk' : Block} (he : p.expires.isExpired blk' = true) :
     isPassed { p with votes := plus p.votes c } blk' = .ok true := by
@@ -471,7 +471,7 @@ theorem rejected_sound {p : Tally} (h : Premise p) {blk : Block} (hne : p.expire
   exact libRejectsAt_open_completion h.valid h.total_u64 (Except.ok.inj hr) c hc
 
 /-- … on the decision function -/
-theorem rejected_sound' {p : Tally} (h : Premise p) {blk : Block} (hne : p.expires.isExpired blk = false)
+theorem rejected_sound_at {p : Tally} (h : Premise p) {blk : Block} (hne : p.expires.isExpired blk = false)
     (hr : isRejected p blk = .ok true) (c : Votes) (hc : cast (plus p.votes c) ≤ p.totalWeight)
     {blk' : Block} (he : p.expires.isExpired blk' = true) :
     isPassed { p with votes := plus p.votes c } blk' = .ok false := by
